@@ -45,9 +45,11 @@ def create_lstm_model(vocab_size: int = 86,
     Model.
   """
   # TODO(jaero): Replace these with direct references from dataset.
+  # Label ids produced by fedjax.datasets.shakespeare: PAD=0, BOS=1, EOS=2,
+  # characters 3..vocab_size+2, OOV=vocab_size+3.
   pad = 0
-  bos = vocab_size + 1
-  eos = vocab_size + 2
+  bos = 1
+  eos = 2
   oov = vocab_size + 3
   full_vocab_size = vocab_size + 4
   # We do not guess EOS, and if we guess OOV, it's treated as a mistake.
